@@ -55,7 +55,7 @@ def main():
         rc, out = run('%s -c "import clastic, os; print(os.path.dirname(clastic.__file__))"' % PY, wt)
         ran.append({'cmd': 'import path', 'exit': rc, 'tail': out.strip()[-200:]})
     finally:
-        run('git checkout -- .', wt)
+        run('git checkout -- . && git clean -fdq clastic', wt)
     d = os.path.join('/verif/seeded', sid)
     os.makedirs(d, exist_ok=True)
     shutil.copyfile(patch, os.path.join(d, 'patch.diff'))
